@@ -68,6 +68,9 @@ Definition d_str : dec bytes := fun bs =>
   | Err e => (0, MErr (ME e))
   end.
 
+(** a length-prefixed block taken as a SUB-SLICE of the input (no copy): Reader.ReadMessage's body *)
+Definition d_sub : dec bytes := dlift rd_lp4.
+
 (** * text helpers (wire names, error texts) *)
 Definition byte_of_ascii (c : ascii) : N := N_of_ascii c.
 Fixpoint str (s : string) : bytes :=
